@@ -363,6 +363,7 @@ struct Value {
   std::vector<uint8_t> bytes;   // MTyped: raw value ('s': filled at apply time)
   std::string text;             // text modes, and content of typed 's' / vector 'c'
   bool null_string = false;     // typed 's' with NULL pointer
+  bool iter_direct = false;     // MIter: the iterator metatype itself is the source (else mpt_object_set_iterator)
   bool vec_with_nul = false;    // vector 'c' length includes the terminator (as mpt_convert_string does)
   Sem sem = SNone;
   bool clean = false;           // text is exactly one literal of the stated meaning
@@ -517,6 +518,7 @@ struct Expect {
   bool known = false;
   std::string val;   // canonical rendering (a rendering starting with '!' can never be read back)
   std::string why;
+  bool must_accept = false;  // the unchanged setter has an explicit path for this value (modelled from the code): refusing it fails too
 };
 
 // number -> rendering in the listed type; exact or (floating targets) correctly rounded, finite stays finite
@@ -654,11 +656,12 @@ static Expect expectation_(int kind, FK fk, long ltype, const Value &v, const st
           if ((fb > 0x20 && fb < 0x7f) || kind == KAxis) {
             e.known = true; e.val = ren_int('c', fb);
             e.why = (fb > 0x20 && fb < 0x7f) ? "the first visible character of the text" : "the first byte of the keyword (axis position fallback)";
+            e.must_accept = kind == KAxis;  // setPosition(): 'c', then the keyword conversion 'k'; text always offers one of them
           }
         }
       }
       else if (v.mode == MTyped && v.type == 'k' && kind == KAxis) {  // setPosition(): *val = *s
-        e.known = true; e.val = ren_int('c', v.text.empty() ? 0 : (unsigned char)v.text[0]); e.why = "the first byte of the keyword served";
+        e.known = true; e.val = ren_int('c', v.text.empty() ? 0 : (unsigned char)v.text[0]); e.why = "the first byte of the keyword served"; e.must_accept = true;
       }
       else if (is_text(v) && v.sem == SChar && v.clean) { e.known = true; e.val = num_as('c', v); e.why = "the single character of the text"; }
       else if (typed(v) && !is_text(v) && v.sem != SInt && v.sem != SChar) { e.known = true; e.val = "!value of a foreign type"; e.why = "value type has no meaning for the property"; }
@@ -957,7 +960,13 @@ static Value gen_value(Ctx &c, FK fk) {
 }
 static Value gen_value_(Ctx &c, FK fk) {
   // 0: fitting typed, 1: fitting text, 2: other numeric typed, 3: foreign typed, 4: garbage text, 5: no value
-  size_t cls = c.weighted({8, 8, 2, 2, 2, 1});
+  // one byte: % 23 = weighted {8,8,2,2,2,1} value class; / 23 >= 7 for pos/scale (about 1 of 3), == 11 elsewhere (1 of 85): the step
+  // takes the next element(s) of the long-lived iterator the case shares between its sets instead of a value of its own
+  uint8_t vb = c.u8();
+  unsigned vr = vb % 23;
+  size_t cls = vr < 8 ? 0 : vr < 16 ? 1 : vr < 18 ? 2 : vr < 20 ? 3 : vr < 22 ? 4 : 5;
+  bool pointprop = fk == FPoint01 || fk == FPointScale;  // the properties that take their value from an iterator
+  if (pointprop ? vb / 23 >= 7 : vb / 23 == 11) { Value v; v.mode = MIter; v.iter_direct = (vb / 23) % 2 == 0; return v; }
   if (cls == 3) return typed_foreign(c);
   if (cls == 4) return text_garbage(c);
   if (cls == 5) return no_value();
@@ -1064,9 +1073,15 @@ struct QuietLogger : mpt::logger {  // a logger that keeps the messages to itsel
 struct World_ {  // everything a case owns
   int flavour, kind;
   std::vector<Obj *> objs;
+  // one iterator source (mpt_iterator_string) that lives across the set steps of the case: model = elements + cursor
+  CMeta *shared = 0;
+  CIter *shared_it = 0;
+  std::vector<std::string> elems;
+  size_t cursor = 0;
+  bool range_refused = false;  // an earlier pair of this iterator was refused by a range check
   // after an oracle failure the objects are left alone (forked child): finalising e.g. two objects that share a
   // string would replace the oracle's verdict by the sanitizer's
-  ~World_() { if (std::uncaught_exceptions()) return; for (Obj *o : objs) if (o) o->destroy(); }
+  ~World_() { if (std::uncaught_exceptions()) return; for (Obj *o : objs) if (o) o->destroy(); if (shared) shared->vptr->unref(shared); }
 };
 
 static void check_listing(Ctx &c, int kind, const Snapshot &s) {
@@ -1231,7 +1246,66 @@ static void run_history(Ctx &c, int flavour, int kind, int variant, bool by_name
         if (target_prop >= 0) ex = expectation(kind, fk, fresh[target_prop].type, val, snap[t][target_prop].val);
         c.logf("step %u: %s", steps, what.c_str());
         if (ex.known) c.logf("    if accepted must read %s (%s)", printable(ex.val, 80).c_str(), ex.why.c_str());
-        if (via_attr && !unknown_name && target_prop >= 0) {
+        if (val.mode == MIter) {
+          // ---- shared iterator: created on first use (and again once used up)
+          if (!w.shared || w.cursor >= w.elems.size()) {
+            static const char *lit[] = {"0", "1", "0.5", "0.25", "0.75", "0.125", "0.0625", "0.375", "0.875", "1.0", "0.3", "1.5", "2.5", "-0.25", "3", "100"};
+            if (w.shared) w.shared->vptr->unref(w.shared);
+            w.elems.clear(); w.cursor = 0; w.range_refused = false;
+            size_t n = 2 + c.pick(11);
+            const char *sep = c.pick(3) == 0 ? "  " : " ";
+            std::string txt;
+            for (size_t i = 0; i < n; i++) { w.elems.push_back(lit[c.u8() % 16]); txt += (i ? sep : "") + w.elems.back(); }
+            w.shared = reinterpret_cast<CMeta *>(mpt::mpt_iterator_string(txt.c_str(), 0));
+            VP_CHECK(c, w.shared, "iterator-create", "mpt_iterator_string(%s) is NULL", printable(txt).c_str());
+            w.shared_it = 0;
+            int r = w.shared->vptr->convertable.convert(w.shared->conv(), mpt::TypeIteratorPtr, &w.shared_it);
+            VP_CHECK(c, r >= 0 && w.shared_it, "iterator-create", "string iterator does not serve its iterator (%d)", r);
+            c.logf("    new shared iterator over %s", printable(txt, 120).c_str());
+            c.label("iter:created");
+          }
+          // ---- model: what the unchanged code consumes and stores (mpt_fpoint_set: two 'f' elements, MissingData when the
+          // second is missing - the first is gone then -, range check after both; every other setter finds no type it can
+          // use in an iterator source and consumes nothing)
+          ex = Expect();
+          bool point = target_prop >= 0 && (fk == FPoint01 || fk == FPointScale);
+          bool direct = point && val.iter_direct;
+          size_t rem = w.elems.size() - w.cursor, take = 0;
+          bool accept = false;
+          if (point) {
+            take = rem >= 2 ? 2 : rem;
+            if (rem >= 2) {
+              float x = strtof(w.elems[w.cursor].c_str(), 0), y = strtof(w.elems[w.cursor + 1].c_str(), 0);
+              float hi = fk == FPoint01 ? 1.0f : FLT_MAX;
+              accept = !(x < 0 || y < 0 || x > hi || y > hi);
+              ex.known = true; ex.val = ren_pt(x, y); ex.why = "the next two elements of the shared iterator"; ex.must_accept = accept;
+            }
+          }
+          c.logf("    shared iterator at element %zu of %zu (%s), source is %s; model: takes %zu, %s", w.cursor, w.elems.size(),
+                 rem ? w.elems[w.cursor].c_str() : "end", direct ? "the iterator metatype itself" : "mpt_object_set_iterator", take, accept ? "accepted" : "refused");
+          ret = direct ? o->set(name.c_str(), reinterpret_cast<mpt::convertable *>(w.shared))
+                       : mpt::mpt_object_set_iterator(o->object(), name.c_str(), w.shared_it->iface());
+          VP_CHECK(c, (ret >= 0) == accept, "iterator-model", "%s returns %d; from element %zu (%s) of the shared iterator the unchanged setter %s", what.c_str(), ret, w.cursor,
+                   rem ? w.elems[w.cursor].c_str() : "end", accept ? "stores the pair" : point ? (rem < 2 ? "finds no pair" : "refuses the pair (range)") : "takes nothing (no usable type)");
+          w.cursor += take;
+          // where the iterator stands now
+          const mpt::value *cur = w.shared_it->vptr->value(w.shared_it);
+          if (w.cursor >= w.elems.size())
+            VP_CHECK(c, !cur, "iterator-cursor", "%s: the shared iterator should be used up after %zu elements, it still has a value", what.c_str(), w.cursor);
+          else {
+            const char *rest = 0;
+            CConv *ec = cur && cur->_addr ? *reinterpret_cast<CConv *const *>(cur->_addr) : 0;
+            int r = ec ? ec->vptr->convert(ec, 's', &rest) : -1;
+            const std::string &want = w.elems[w.cursor];
+            bool ok = r >= 0 && rest && !strncmp(rest, want.c_str(), want.size()) && (!rest[want.size()] || rest[want.size()] == ' ');
+            VP_CHECK(c, ok, "iterator-cursor", "%s: the shared iterator should stand at element %zu (%s), it stands at %s", what.c_str(), w.cursor, want.c_str(),
+                     rest ? printable(rest, 40).c_str() : "nothing");
+          }
+          if (point && accept) { c.label("iter:pair-accepted"); if (w.range_refused) c.label("iter:pair-accepted-after-range-refusal"); }
+          else if (point && rem >= 2) { c.label("iter:pair-range-refused"); w.range_refused = true; }
+          else if (point) c.label("iter:pair-missing");
+          else c.label("iter:no-point-property");
+        } else if (via_attr && !unknown_name && target_prop >= 0) {
           // C++ path: object::operator[] selects the property through property(name), the assignment sets under the
           // resolved name. The name is one the setter knows, so the selection must find the same property.
           mpt::object::attribute at = (*o->object())[name.c_str()];
@@ -1242,6 +1316,7 @@ static void run_history(Ctx &c, int flavour, int kind, int variant, bool by_name
           if (!sel) {
             VP_CHECK(c, get_refusal_modelled(kind, name), "set-name-unknown-to-get", "%s: obj[%s] selects nothing although the setter knows the name (-> %s)", what.c_str(), printable(name).c_str(), want);
             c.label("get:alias-refused-modelled");
+            ex.must_accept = false;  // nothing selected: the assignment is dropped before the setter sees the value
           } else
             VP_CHECK(c, !strcmp(sel, want), "get-by-name-other", "%s: obj[%s] selects property %s, the setter addresses %s under that name", what.c_str(), printable(name).c_str(), sel, want);
           ret = apply(o, name.c_str(), val, &at);
@@ -1329,6 +1404,8 @@ static void run_history(Ctx &c, int flavour, int kind, int variant, bool by_name
     if (ret < 0) {
       std::string d = diff(snap[t], after[t]);
       VP_CHECK(c, d.empty(), "refused-but-changed", "%s is refused (%d) but the object changed: %s", what.c_str(), ret, d.c_str());
+      if (op == 0 && ex.known && ex.must_accept)
+        c.fail("refused-modelled-value", "%s is refused (%d); the setter has a conversion path for it and must store %s (%s)", what.c_str(), ret, printable(ex.val, 60).c_str(), ex.why.c_str());
       // (a conversion may answer BadArgument too - mpt_value_convert for an unknown type: only the harness convertable and a reset are sure not to)
       if ((op == 1 || (op == 0 && val.mode == MTyped)) && target_prop >= 0 && find_prop(fresh, name) >= 0)
         VP_CHECK(c, ret != mpt::BadArgument, "listed-name-unknown", "%s: the setter does not know the listed property name (BadArgument)", what.c_str());
@@ -1347,9 +1424,14 @@ static void run_history(Ctx &c, int flavour, int kind, int variant, bool by_name
         bool stopped = false;
         for (size_t i = 0; i < fresh.size(); i++) {
           bool refused = false;
-          unsigned bx = 0, by = 0;
-          if (kind == KText && fresh[i].name == "pos" && sscanf(snap[src][i].val.c_str(), "pt:f:%8x(%*[^)]),f:%8x(", &bx, &by) == 2) {
-            float x, y; memcpy(&x, &bx, 4); memcpy(&y, &by, 4);
+          if (kind == KText && fresh[i].name == "pos") {
+            float xy[2];
+            for (int k = 0; k < 2; k++) {  // a coordinate renders as "f:<8 hex digits>(..)" or "f:nan"
+              std::string comp = cur_component(snap[src][i].val, k);
+              unsigned bits = 0;
+              if (sscanf(comp.c_str(), "f:%8x(", &bits) == 1) memcpy(&xy[k], &bits, 4); else xy[k] = NAN;
+            }
+            float x = xy[0], y = xy[1];
             refused = x < 0 || x > 1 || y < 0 || y > 1;
             if (refused) c.label("copy:object-set-text-pos-out-of-range");
           }
